@@ -1,12 +1,38 @@
 """Per-property configuration of ./check: theorem modules, expected theorem names, suites, projections."""
 
+NOT_APPLICABLE = {}
+HOOK_COMMITS = []
+
+LEVEL_NOTE_SRV = ("Theorems are about the sequential Lean model of the C2S server (one request handled to quiescence at a time); "
+                  "the model is tied to /repo by running the real server in-process on the same histories (srv/acl suites) and by "
+                  "the translator's regenerated tables. Trusted: Lean kernel, harness, rustc/std/tokio/dashmap; thread-level interleavings "
+                  "inside one request are not exhibited by the model.")
+
 AUTHED_OPS = ["join", "join-onbehalf", "leave", "leave-onbehalf", "broadcast", "members", "channels", "getacl", "setacl",
               "getconfig", "setconfig", "moddirect", "other", "malformed"]
 
 SRV_TRUST = ["modelled, not verified: control logic of server/src/channel/mod.rs, c2s/conn.rs, c2s/router.rs, notifier (tied by the srv correspondence)",
              "hash-order choices (pick_new_owner, event order within one clean-up) are oracle inputs validated by the model"]
 
+SRV_RULE = ("random histories (<=80 ops, <=7 connections, 5 users, 5 channels, 7 modulator variants, boundary integers, "
+            "odd identifiers) on the real server; a case is distinct by (op kind, multiset of frame kinds it produced); "
+            "non-trivial = relevant to the property's projection")
+
 PROPS = {
+    "C12": {
+        "theorems": ["Narwhal.Theorems.C12"],
+        "audit_files": ["Narwhal/Model/Server.lean", "Narwhal/Lemmas/Emit.lean", "Narwhal/Lemmas/Assoc.lean"],
+        "expect_theorems": ["Narwhal.Server.C12_one_reply", "Narwhal.Server.C12_no_foreign_id", "Narwhal.Server.C12_idless_closes"],
+        "suites": {"srv": {"kind": "srv", "projection": {"ops": AUTHED_OPS, "phases": ["2"], "requester_only": True},
+                           "oracle_tags": ["C12"]}},
+        "rule": SRV_RULE, "trusted_base": SRV_TRUST,
+        "level_text": "Proved in Lean for every state, request kind and parameter value: the frames queued to the requester contain exactly one frame "
+                      "with the request's id or a closing ERROR, and no frame with another id. Tied to the code by the srv correspondence and a "
+                      "per-request reply-count oracle on the real server.",
+        "level_note": LEVEL_NOTE_SRV,
+        "assumptions": ["requests are handled to quiescence one at a time (sequential model); pipelining and request timeouts are decided under C13",
+                        "RESPONSE_TOO_LARGE substitution happens in the connection loop and is not part of this model"],
+    },
     "C03": {
         "theorems": ["Narwhal.Theorems.C03"],
         "audit_files": ["Narwhal/Model/Acl.lean"],
@@ -20,5 +46,10 @@ PROPS = {
                 "distinct by (op kind, multiset of frame kinds it produced); non-trivial = relevant to the property's projection",
         "trusted_base": SRV_TRUST,
         "assumptions": ["ACL entries over domains outside the ASCII subset of the domain regex are not generated"],
+        "level_text": "Proved in Lean for every ACL reachable by any update sequence and every NID: is_allowed agrees with the reported allow-list "
+                      "(empty / lists the NID / lists its bare domain); add puts and remove takes the named user NIDs; removal never widens to a bare domain. "
+                      "Enforcement sites (JOIN, BROADCAST, delivery cache) are tied by the srv and acl correspondence suites and an oracle that compares "
+                      "every decision with the list the owner last read back.",
+        "level_note": LEVEL_NOTE_SRV,
     },
 }
